@@ -102,3 +102,45 @@ def defaultK (d : Option (Int × Nat)) : Except SimpleErr K :=
 
 end
 end Acn.SimpleAcn
+
+/-! ## the executed calls of `Gen/SimpleAcn.lean` against the model (exact rationals) -/
+
+namespace Acn.SimpleAcn
+open Acn Acn.Gen.SimpleAcn
+
+def ratOf (p : Int × Nat) : Rat := mkRat p.1 p.2
+
+def absRat (q : Rat) : Rat := if q < 0 then -q else q
+
+/-- double-rounding allowance between a dumped limit and the exact value of its formula: 2⁻⁴⁰ relative -/
+def limEps : Rat := mkRat 1 1099511627776
+
+/-- what `get_evse_by_type` documents for its three types: (continuous?, allowable levels) -/
+def evseTable (ty : String) : Option (Bool × List (Int × Nat)) :=
+  if ty == "BASIC" then some (true, [(0, 1), (32, 1)])
+  else if ty == "AeroVironment" then some (false, (0, 1) :: (List.range 27).map fun i => ((i + 6 : Nat), 1))
+  else if ty == "ClipperCreek" then some (false, [(0, 1), (8, 1), (16, 1), (24, 1), (32, 1)])
+  else none
+
+/-- One executed call agrees with `simpleAcn` at the arguments passed (omitted ones: the signature defaults):
+    the stations are the distinct ids asked for, in order; every angle is 0 and every voltage the requested one;
+    there is exactly one constraint, with coefficient 1 on every station; its limit is the exact value of
+    `limitExpr` up to double rounding; the EVSEs are of the requested type. -/
+def instOk (I : Inst) : Bool :=
+  let n := I.ids.length
+  match (I.voltage <|> defaultVoltage), (I.cap <|> defaultCap) with
+  | some v, some c =>
+    I.stations == I.ids && decide I.ids.Nodup &&
+    I.angles == I.ids.map (fun _ => ((0 : Int), 1)) &&
+    decide (I.voltages.length = n) && I.voltages.all (fun q => decide (ratOf q = ratOf v)) &&
+    I.conNames == [constraintName] &&
+    I.rows == [(List.range n).map fun j => (j, (1 : Int), 1)] &&
+    (match I.limits, evalS (K := Rat) (ratOf c) (ratOf v) limitExpr with
+     | [l], .ok q => decide (absRat (ratOf l - q) ≤ limEps * absRat q)
+     | _, _ => false) &&
+    (match evseTable (if I.evseType == "" then defaultEvseType else I.evseType) with
+     | some (cont, lv) => I.continuous == cont && I.levels == lv && I.maxRates == [(32, 1)]
+     | none => false)
+  | _, _ => false
+
+end Acn.SimpleAcn
